@@ -166,6 +166,11 @@ def coverage(chk, units):
                    key=key)
         elif p["purevirtual"] and not p["inst"]:
             continue
+        elif "::internal::" in p["pqn"] and not p["inst"]:
+            # an implementation helper that nothing instantiates any more: no code path of the API reaches it (a path that
+            # did would itself have to be instantiated, and would instantiate the helper)
+            chk.note("unused_internal_helpers", sorted(set(chk.notes.get("unused_internal_helpers", []) + [
+                "%s %s" % (where, p["pqn"])])))
         elif p.get("parent") in pats and pats[p["parent"]]["arch"]:
             # a lambda inside a function that IS instantiated with the archetype, but only in its instantiations
             # for other scalar types: it sits in a compile-time branch on a property of T. Not a hole of the witness
